@@ -15,7 +15,9 @@ def main(chk):
         'the client\'s last statement is inside a transaction (its own ground truth), the next statement of the client is executed on that same '
         'backend and the pooler does not end the transaction on its own while the client is connected; a connection is handed back for reuse '
         'only when the backend is outside a transaction (or it is discarded); every reply the client receives is the next reply its own '
-        'backend produced for its own request.  Exclusive lending between concurrent clients is bb8\'s contract (assumed).')
+        'backend produced for its own request, and no result message that was produced for anybody else\'s statement (replies around the 8 KiB relay threshold included).  '
+        'Outside the client loop: ConnectionPool::get / run_health_check with solver-chosen health-check outcomes -- a connection whose health check failed or timed out '
+        'is marked bad, so a reply that arrives late on it can never be served to the next client.  Exclusive lending between concurrent clients is bb8\'s contract (assumed).')
     chk.assumptions += [
         'bb8 lends a connection to one borrower at a time (library contract); interleavings of several client tasks are not encoded',
         'the reference backend implements the protocol documentation for the statements in the families; Flush-terminated batches are outside the claim (this pgcat version discards Flush)',
